@@ -129,7 +129,7 @@ def _run(cs, tier, run_index, M, X):
             except Exception as e:
                 res.violate("C08.pool.value", why="constructor raised on a valid game", exc=type(e).__name__, msg=str(e)[:200], **meta)
                 return res
-            objs.append((g, prob.copy(), pred.copy()))
+            objs.append((g, np.array(g.prob_mat, copy=True), np.array(g.pred_mat, copy=True)))
         game, prob0, pred0 = objs[gi]
         chunks_before = sim.chunks
         out = call(M, game, sim)
